@@ -91,6 +91,10 @@ func (a *Application) providerProxyHandler(w http.ResponseWriter, r *http.Reques
 		return
 	}
 
+	if a.writeRoutingRejection(w, pr, endpoints) {
+		return
+	}
+
 	if len(endpoints) == 0 {
 		http.Error(w, fmt.Sprintf("No %s endpoints available", providerType), http.StatusNotFound)
 		return
